@@ -320,6 +320,10 @@ func genSctp(r *RNG, n int, op string, emit func(string)) {
 		genSctpExhaustive(emit)
 		return
 	}
+	if op == "canswer" {
+		genSctpCAnswer(r, n, emit)
+		return
+	}
 	for i := 0; i < n; i++ {
 		ns := 1 + r.Intn(4)
 		id := uint32(0)
